@@ -274,3 +274,30 @@ func H_C12_levels_remove() {
 	vHNSWReachable(idx)
 	vHNSWSearchChecks(idx, m, resident, []int{1, 4})
 }
+
+func init() { vHarnesses["H_C12_remove_all"] = H_C12_remove_all }
+
+// every resident vertex soft-deleted, then a new vector is added (no flush in between)
+func H_C12_remove_all() {
+	idx, err := NewHNSWIndex(1, L2Squared, vHM, 8, 8)
+	vAssert(err == nil, "constructor")
+	m := vNewRef(L2Squared)
+	n := 1 + vChoose("n", 3)
+	for i := 0; i < n; i++ {
+		vHNSWAdd(idx, m, vIDs[i], vVec(vName("v", i), 1), 0)
+	}
+	for i := 0; i < n; i++ {
+		vRemoveBoth(idx, m, vIDs[i])
+	}
+	vTag("all-removed-then-add")
+	vHNSWAdd(idx, m, vIDs[n], vVec(vName("v", n), 1), 0)
+	if vChoose("second_add", 2) == 1 {
+		vHNSWAdd(idx, m, vIDs[n+1], vVec(vName("v", n+1), 1), 0)
+	}
+	vHNSWSearchChecks(idx, m, n+2, []int{1, 4})
+	if vChoose("flush", 2) == 1 {
+		vFlushBoth(idx, m)
+		vHNSWReachable(idx)
+		vHNSWSearchChecks(idx, m, 2, []int{4})
+	}
+}
